@@ -504,6 +504,11 @@ def rule_time_and_order(ck):
     ck.clause('D4 (shared C15-D2/D3 time parsing, C14-D7 row order)')
     c15.rule_utc(ck)
     c15.rule_exact(ck, only=('strptime_to_utc_epoch', 'datetime_to_utc_epoch', 'strptime_to_utc_datetime'))
+    c15.rule_formats(ck)
+    # the forecast object that yields the decoded catalogs: its iteration state has no writer outside its own four methods
+    from . import c13
+    c13.rule_writers(ck)
+    c13.rule_next(ck)
     c14.rule_row_order(ck)
 
 
